@@ -1,5 +1,5 @@
 (* Single entry point of the executable model: [dispatch (SL [SI code; payload])]. *)
-From MD Require Import Base.Py Base.Sx Run.RunRuler Run.RunInstance Run.RunWorld Run.RunStream Run.RunBlock.
+From MD Require Import Base.Py Base.Sx Run.RunRuler Run.RunInstance Run.RunWorld Run.RunStream Run.RunBlock Run.RunPipe.
 
 Definition dispatch (s : sx) : sx :=
   let payload := sx_nth s 1%nat in
@@ -19,5 +19,6 @@ Definition dispatch (s : sx) : sx :=
   | 27 => run_strfn payload
   | 30 => run_block payload
   | 31 => run_tables payload
+  | 40 => run_pipe payload
   | _ => SL [SI (-1)]
   end.
